@@ -113,6 +113,22 @@ def check(res):
                                   "get_string called with the %d bytes %s returns the String made from %s (the two spellings have the same std::hash code)" %
                                   (len(w), w.hex(), words[nid].hex()),
                                   {"words_hex": [x.hex() for x in words[:i + 1]][-8:], "observed": l, "rerun": "printf 'H %s\\nH %s\\n' | build/<hash>/asan/c03_driver" % (words[nid].hex(), w.hex())})
+    nres, rbad = fsweep.reserved_names(60)
+    for l, word, t, d in rbad[:1]:
+        if "read-back:reserved-name" not in keys:
+            keys.add("read-back:reserved-name")
+            res.violation("read-back:reserved-name", "get_symbol / make_id_expr requested with the reserved word `%s` as name and type %s do not report that name and type: %s" %
+                          (word, t, d or l[:200]), {"observed": l, "rerun": "echo 'N:reserved <index of the word> <type index>' | build/<hash>/asan/fsweep_driver"})
+    # ONE list with thousands of members: each member reads back at the position it was given
+    ll_lines, ll_bad = fsweep.long_lists(res, "", res.tier)
+    for l, o, d in ll_bad[:2]:
+        k = "read-back:long-list:" + l.split()[1]
+        if k not in keys:
+            keys.add(k)
+            res.violation(k, "a %s list of %s members does not read back what it was given at position %s (members found at the wrong position: %s, "
+                          "wrong types: %s, wrong position(): %s, wrong elements of the list's type: %s)" %
+                          (l.split()[1], d.get("n"), d.get("first"), d.get("bad_member"), d.get("bad_type"), d.get("bad_position"), d.get("bad_product")),
+                          {"case": l, "observed": o, "rerun": "echo '%s' | build/<hash>/asan/c09_driver" % l})
     # every result re-read after all the other calls: what a node exposes does not depend on what was built after it
     changed, crashed, err = fsweep.reobserve(calls)
     for kind, fkey, fargs, before, after in changed[:6]:
